@@ -12,8 +12,9 @@ Definition memp (p : wpath) (l : list wpath) : bool := existsb (wp_eqb p) l.
    before watching a path with another mode, so this agrees with notify's per-path registration whenever the
    configured list does not name one path with two modes (the generators never do) *)
 
-Inductive kind : Set := KNative | KPoll.
-Definition kind_eqb (a b : kind) : bool := match a, b with KNative, KNative | KPoll, KPoll => true | _, _ => false end.
+(* Watcher::Native | Watcher::Poll(interval): two poll watchers with different intervals are different kinds *)
+Inductive kind : Set := KNative | KPoll | KPoll2.
+Definition kind_eqb (a b : kind) : bool := match a, b with KNative, KNative | KPoll, KPoll | KPoll2, KPoll2 => true | _, _ => false end.
 
 Record cfg : Set := mkCfg { c_paths : list wpath; c_kind : kind }.
 
